@@ -22,7 +22,7 @@ Record fcase := {
 Record ecase := {
   e_exact : bool; e_S : Q;
   e_x : list Q; e_lbs : list ereal; e_ubs : list ereal;
-  e_bts : list Z;                      (* boundary types, one per variable *)
+  e_bts : list Z;                      (* boundary types as configured (size 1 or V) *)
   e_pts : list Z;                      (* perturbation types as configured (size 1 or V) *)
   e_ms : list Q;                       (* perturbation magnitudes as configured (size 1 or V) *)
   e_gs : option (list Z);              (* gradient.samplers *)
@@ -67,14 +67,14 @@ Definition rows_eqb (a b : list (list Q)) : bool := list_eqb (list_eqb Qeqb) a b
 
 Definition check_eval (c : ecase) : bool :=
   let ex := e_exact c in let S := e_S c in
-  match magnitudes_of (e_pts c) (e_lbs c) (e_ubs c) (e_ms c) with
-  | MagInfinite => e_rejected c
-  | MagShape => false
-  | MagOk mags =>
+  match magnitudes_of (e_pts c) (e_lbs c) (e_ubs c) (e_ms c), broadcast (length (e_x c)) (e_bts c) with
+  | MagInfinite, _ => e_rejected c
+  | MagShape, _ | _, None => false
+  | MagOk mags, Some bts =>
       let order := sampler_order (e_gs c) in
       let ss := map (fun k => zero3 (sampler_mask k (e_gs c) (e_mask c)) (nth (Z.to_nat k) (e_scripts c) [])) order in
       let samples := sum_samples ss in
-      let pv := perturb (e_bts c) (e_lbs c) (e_ubs c) (e_x c) mags samples in
+      let pv := perturb bts (e_lbs c) (e_ubs c) (e_x c) mags samples in
       negb (e_rejected c) &&
       forallb2 (qcmp ex S) (e_mags c) mags &&
       negb (Nat.eqb (length order) 0) &&
@@ -86,7 +86,7 @@ Definition check_eval (c : ecase) : bool :=
       rows_eqb (e_rows c) (repeat (e_x c) (e_R c) ++ concat (e_pert c)) &&
       (* the property's clauses directly on the observation *)
       forallb2 (forallb2 (fun srow grow =>
-          comps_ok ex S (e_bts c) (e_lbs c) (e_ubs c) (pre_bounds (e_x c) mags srow) grow)) samples (e_pert c)
+          comps_ok ex S bts (e_lbs c) (e_ubs c) (pre_bounds (e_x c) mags srow) grow)) samples (e_pert c)
   end.
 
 Definition check_case (c : case) : bool :=
